@@ -901,6 +901,13 @@ class ExecCore(object):
             q = self.resolve_class_node(nm)
             if exc.cid is None:
                 conds.append(z3.BoolVal(front.is_subclass(exc.clsq, q)))
+            elif q == 'builtins:BaseException':
+                conds.append(TRUE)
+            elif q == 'builtins:Exception':
+                # every exception class except the three that derive from BaseException directly (the class of a symbolic
+                # exception is not restricted to the registry: a callee that may raise "anything" may raise a library's own class)
+                special = [front.cls_id('builtins:' + n) for n in ('KeyboardInterrupt', 'SystemExit', 'GeneratorExit')]
+                conds.append(Not(Or(*[exc.cid == i for i in special])))
             else:
                 conds.append(Or(*[exc.cid == i for i in front.subclass_ids(q)]))
         return Or(*conds)
